@@ -335,13 +335,50 @@ def gen_chain_cases(ctx):
         common = rng.randrange(0, top + 1)
         ln = rng.randrange(497, 560)
         cases.append({"m": m, "sides": [[f, k]], "on": on, "common": common, "len": ln, "extra": rng.choice([[], [], [0], [-1]])})
+    # the full-scan window: fork points at every position around and below the lowest anchor (asking chain > 496 high)
+    offs = list(range(-18, 3)) if not quick else sorted(rng.sample(range(-18, 3), 6))
+    for off in offs:
+        ln = rng.randrange(520, 640)
+        lowest = ln - 496
+        common = max(0, lowest + off)
+        m = lowest + rng.randrange(5, 30)
+        cases.append({"m": m, "sides": [], "on": -1, "common": min(common, m), "len": ln, "extra": []})
     return cases
+
+
+def finder_end_to_end(o):
+    """lightscan answer of the real findAncestor, else the full scan over [0, lastNo-1] as the Finder does it
+    (binarySearch of finder.go against the answering node's main chain).  Returns the ancestor height or None."""
+    if o["ancno"] >= 0:
+        return o["ancno"]
+    lc, rc = o["asker"], o["main"]
+    if o["lastno"] == 0:
+        return None                     # LastAnchor-1 wraps: the session ends with an error (modelled, ex_fullscan_wraps)
+    left, right, last = 0, o["lastno"] - 1, None
+    while left <= right:
+        mid = (left + right) // 2
+        if mid < len(lc) and mid < len(rc) and lc[mid] == rc[mid]:
+            left, last = mid + 1, mid
+        else:
+            if mid == 0:
+                break
+            right = mid - 1
+    return last
 
 
 def chain_predicate(c, o):
     bad = []
     if o["err"]:
         bad.append(("chain:" + o["err"][:40], o))
+    own = [a for a in o["anchors"][:len(o["anchors"]) - len(c["extra"])]]
+    if own and o["lastno"] != own[-1] % 100000:
+        bad.append(("chain:lastanchor-is-not-the-height-of-the-last-anchor", {"lastno": o["lastno"], "last_anchor_height": own[-1] % 100000}))
+    # end to end: the ancestor the Finder ends up with is the highest common block whenever the anchor comparison finds
+    # none (and at least a common block at or above the lowest anchor otherwise)
+    hc = max([h for h in range(min(len(o["asker"]), len(o["main"]))) if o["asker"][h] == o["main"][h]] or [-1])
+    got = finder_end_to_end(o)
+    if o["ancno"] < 0 and o["lastno"] > 0 and not c["extra"] and got != (hc if hc >= 0 else None):
+        bad.append(("chain:fullscan-ancestor-not-highest-common", {"ancestor": got, "highest_common": hc, "lastno": o["lastno"]}))
     if o["ancno"] >= 0:
         if not o["on_answerer_main"]:
             bad.append(("chain:ancestor-not-on-answering-main-chain", {"ancno": o["ancno"], "ancid": o["ancid"]}))
